@@ -12,8 +12,19 @@ def _children(jobs, fn, nthreads):
 
 # ------------------------------------------------------------------------------------------- C16
 
-def c16_case(binp, entry, start):
-    p = subprocess.run([binp, "overflow-child", "--entry", entry, "--start", str(start)], stdout=subprocess.PIPE, stderr=subprocess.DEVNULL, text=True)
+def c16_case(binp, entry, start, stderr_mode="devnull"):
+    """stderr_mode "broken-pipe": the child's standard error is a pipe whose reader has gone away
+    (`prog 2>&1 | head`), so any attempt to print there fails at the moment of the abort."""
+    cmd = [binp, "overflow-child", "--entry", entry, "--start", str(start)]
+    if stderr_mode == "broken-pipe":
+        r, w = os.pipe()
+        os.close(r)
+        try:
+            p = subprocess.run(cmd, stdout=subprocess.PIPE, stderr=w, text=True)
+        finally:
+            os.close(w)
+    else:
+        p = subprocess.run(cmd, stdout=subprocess.PIPE, stderr=subprocess.DEVNULL, text=True)
     return p.returncode, p.stdout
 
 def c16_judge(start, rc, out):
@@ -82,18 +93,23 @@ def c16(check, pid, tier, seed):
         entries = subprocess.run([b, "overflow-entries"], stdout=subprocess.PIPE, text=True).stdout.split()
         for e in entries:
             for s in starts:
-                jobs.append((cfg, b, e, s, True))
-            for s in extras:
-                jobs.append((cfg, b, e, s, False))
+                jobs.append((cfg, b, e, s, "devnull"))
+                if s >= ISIZE_MAX:
+                    jobs.append((cfg, b, e, s, "broken-pipe"))
+            for i, s in enumerate(extras):
+                jobs.append((cfg, b, e, s, "broken-pipe" if i % 4 == 3 else "devnull"))
     def run(j):
-        cfg, b, e, s, _ = j
-        rc, out = c16_case(b, e, s)
+        cfg, b, e, s, mode = j
+        rc, out = c16_case(b, e, s, mode)
         return j, rc, out
     results = _children(jobs, run, check.NCPU)
     viols, aborted, succeeded, at_limit = [], 0, 0, {"success": 0, "abort": 0}
     per_entry = {}
-    for (cfg, b, e, s, _), rc, out in results:
+    broken_pipe = 0
+    for (cfg, b, e, s, mode), rc, out in results:
         v = c16_judge(s, rc, out)
+        if mode == "broken-pipe":
+            broken_pipe += 1
         if rc == -signal.SIGABRT:
             aborted += 1
         elif rc == 0:
@@ -104,34 +120,34 @@ def c16(check, pid, tier, seed):
         if v:
             if v[0] == "harness":
                 check.harness_error(f"overflow child {e} start={s} cfg={cfg}: {v[1]}")
-            viols.append((cfg, e, s, v))
+            viols.append((cfg, e, s, v, mode))
     wall = time.time() - t0
     reported = []
     os.makedirs(check.REPLAYS, exist_ok=True)
     known = check.load_known()
     known_hit = []
-    for cfg, e, s, (cls, detail) in viols[:8]:
-        path = os.path.join(check.REPLAYS, f"C16-{cfg}-{e}-{s}.replay")
+    for cfg, e, s, (cls, detail), mode in viols[:8]:
+        path = os.path.join(check.REPLAYS, f"C16-{cfg}-{e}-{s}-{mode}.replay")
         with open(path, "w") as f:
-            f.write(f"trisim-overflow v1\nentry {e}\nstart {s}\n# cfg: {cfg}\n# class: {cls}\n# detail: {detail}\n")
-        info = dict(cls=cls, detail=f"entry={e} start={s} cfg={cfg}: {detail}", replay=path)
+            f.write(f"trisim-overflow v1\nentry {e}\nstart {s}\nstderr {mode}\n# cfg: {cfg}\n# class: {cls}\n# detail: {detail}\n")
+        info = dict(cls=cls, detail=f"entry={e} start={s} cfg={cfg} stderr={mode}: {detail}", replay=path)
         k = check.match_known(known, pid, info)
         if k:
             print(f"KNOWN-FINDING: property={pid} {k['signature']}", flush=True)
             known_hit.append({"signature": k["signature"]})
             continue
         reported.append(info)
-    samples = [{"config": cfg, "entry": e, "start": s, "exit_status": rc, "output": out.strip().splitlines()} for (cfg, b, e, s, _), rc, out in results[:2] + results[5:8]]
+    samples = [{"config": cfg, "entry": e, "start": s, "stderr": mode, "exit_status": rc, "output": out.strip().splitlines()} for (cfg, b, e, s, mode), rc, out in results[:2] + results[5:8]]
     cov = {
         "evaluations": len(results),
-        "distinct_nontrivial": len(set((cfg, e, s) for (cfg, b, e, s, _), rc, out in results if s >= ISIZE_MAX - 1000)),
+        "distinct_nontrivial": len(set((cfg, e, s, mode) for (cfg, b, e, s, mode), rc, out in results if s >= ISIZE_MAX - 1000)),
         "rule": "one evaluation = one child process: a live handle of the entry point's kind, counter preset (time compression of forgotten clones), one clone, termination observed; "
-                "distinct_nontrivial = distinct (config, entry point, start) triples with the start within 1000 of the limit or above it; the explicit start x entry x config matrix is enumerated completely, extras are seeded",
+                "distinct_nontrivial = distinct (config, entry point, start, stderr state) tuples with the start within 1000 of the limit or above it; the explicit start x entry x config matrix is enumerated completely, extras are seeded",
         "samples": samples,
         "exhaustive": False,
         "matrix": {"starts": [str(s) for s in starts], "seeded_extra_starts": nextra, "entry_points_per_config": {k: 0 for k in []}, "configs": list(bins.keys())},
         "children_per_entry": per_entry,
-        "fault_kinds_fired": {"counter_preset": len(results), "process_aborted": aborted, "clone_succeeded": succeeded, "at_soft_limit": at_limit},
+        "fault_kinds_fired": {"counter_preset": len(results), "stderr_is_a_broken_pipe_at_the_moment_of_the_clone": broken_pipe, "process_aborted": aborted, "clone_succeeded": succeeded, "at_soft_limit": at_limit},
         "runs_per_hour": int(len(results) / wall * 3600),
         "simulated_time": {"unit": "forgotten clones skipped by presetting the counter", "steps": "up to 2^64-1 per case"},
         "components": check.REAL_VS_STUB,
@@ -159,7 +175,7 @@ def c16_replay(check, path):
         if l.startswith("# cfg:"):
             cfg = l.split(":")[1].strip()
     b = check.build(cfg)
-    rc, out = c16_case(b, kv["entry"], int(kv["start"]))
+    rc, out = c16_case(b, kv["entry"], int(kv["start"]), kv.get("stderr", "devnull"))
     sys.stdout.write(out)
     v = c16_judge(int(kv["start"]), rc, out)
     print(f"exit status {rc}; verdict: {v}")
@@ -263,8 +279,9 @@ def c17_tape(check, pid, tier, seed):
     cov = {
         "tape_evaluations": int(tot.get("runs", 0)),
         "tape_distinct_call_sequences": len(hashes),
-        "tape_rule": "values are drawn from (u32, String, (u8,String), Vec<Piece>, Option<Piece>, Nested with hand-written impls, [Piece;9], (Nested,String,u64)); one evaluation = one (value, direction, fault point k) with k = 0..calls+1 "
-                     "enumerated completely per value; distinct = distinct serializer call sequences (tapes) among the generated values, unioned over workers",
+        "tape_rule": "values are drawn from (u32, String, (u8,String), Vec<Piece>, Option<Piece>, Nested with hand-written impls, [Piece;9], (Nested,String,u64), (), a zero-sized Tag whose hand-written "
+                     "deserialiser validates its input); one evaluation = one (value, direction, fault point k) with k = 0..calls+1 enumerated completely per value, plus per value one pass through a "
+                     "format that is not self-describing (typed entry points only) and two inputs written for another type; distinct = distinct serializer call sequences (tapes) among the generated values, unioned over workers",
         "tape_samples": tot.get("samples", [])[:4] or ["none"],
         "tape_fault_kinds_fired": {"serializer_failure_at_kth_call": int(tot.get("ser_faults_fired", 0)), "deserializer_failure_at_kth_call": int(tot.get("de_faults_fired", 0)),
                               "serializer_fault_points": int(tot.get("ser_fault_points", 0)), "deserializer_fault_points": int(tot.get("de_fault_points", 0))},
@@ -272,6 +289,9 @@ def c17_tape(check, pid, tier, seed):
         "fresh_owner_blocks_checked_against_ledger": int(tot.get("fresh_blocks_checked", 0)),
         "serde_value_deserializer_cases": int(tot.get("value_deserializer_cases", 0)),
         "tape_values_by_type": tot.get("by_type"),
+        "tape_inputs_written_for_another_type": {"cases": int(tot.get("wrong_input_cases", 0)), "rejected_by_the_value_deserialiser": int(tot.get("wrong_input_rejected", 0))},
+        "tape_typed_entry_points_only_format_cases": int(tot.get("strict_format_cases", 0)),
+        "tape_deserializer_entry_points_used": tot.get("entry_points"),
         "tape_components": {"real_code": ["triomphe's Serialize/Deserialize impls for Arc and UniqueArc", "serde (traits, std impls, de::value deserializers)"],
                        "stub_or_shim": ["Serializer and Deserializer (recording/replaying tape with failure injection)", "the global allocator (ledger)", "payload pieces (identity-tracked)"]},
         "configurations": "A only: serde is absent from the no-default-features build (compiled out, not counted as a pass)",
